@@ -690,3 +690,21 @@ def _opaque_len(eng, st, obj, args, kwargs, node, site):
 		yield st, SInt(f(obj.term))
 		return
 	raise Unsupported(f'len of {obj!r}')
+
+
+@lib('builtins.getattr')
+def _getattr(eng, st, args, kwargs, node):
+	obj, name = args[0], args[1]
+	if not isinstance(name, str):
+		raise Unsupported('getattr with a symbolic name')
+	yield from eng.getattr(st, obj, name, node)
+
+
+@lib('method:split')
+def _split(eng, st, obj, args, kwargs, node, site):
+	if isinstance(obj, str) and all(isinstance(a, str) for a in args):
+		r = Ref('list')
+		st.heap[r.addr] = obj.split(*args)
+		yield st, r
+		return
+	raise Unsupported(f'split on {obj!r}')
